@@ -187,6 +187,7 @@ def run_property(mod, tier, seed, replay=None):
         if replay is None or os.path.abspath(old) != os.path.abspath(replay):
             os.unlink(old)
 
+    scn.STACK_KB = getattr(mod, "STACK_KB", None)
     # 1. build the implementation side from /repo's working tree
     try:
         harness = build.build_harness()
